@@ -76,6 +76,20 @@ CHECKS = {
   note='Expression-valued fields are recognised from constructor annotations (Expr, Dose); exemptions are listed with '
        'reasons in rules/C10.py.',
   ref='DESIGN.md §2 C10'),
+ 'C18': dict(
+  technique='grammar (lark rule/terminal tables) versus interpreter-class exhaustiveness, alphabet set agreement '
+            'across grammar / constants / annotations / dispatch chains, equality-method shape and coverage, '
+            'Wildcard typestate guard analysis on the CFG, interprocedural set-order leak dataflow in the search '
+            'algorithms',
+  text='G1-G8 quantify over every rule of the MFL grammar, every feature class and every method of the algebra, '
+       'where a test only samples a few strings: they decide that no statement kind or mode silently falls to lark's '
+       'default handler, that the four spellings of each mode alphabet are the same set, that equality is a '
+       'boolean symmetric relation over all attributes, that +,- and printing keep every attribute, that `*` is '
+       'never iterated unguarded, and that no candidate list is paired positionally with a set.',
+  note='Not decided: counts of enumerated candidates (Bell numbers, power sets), stepwise path rules, algebraic laws '
+       'against expanded sets. Category table (terminal, class, field, wildcard constant) is an explicit slot table '
+       'in rules/C18.py.',
+  ref='DESIGN.md §2 C18'),
 }
 NA = {}
 
